@@ -100,9 +100,9 @@ def contract_for(item):
             modes["alpha=1(default)"] = Mode(params=dict(size=Int, alpha=Const(1)), requires=["size >= 1"])
     else:
         modes["any"] = Mode(params=params, requires=["size >= 1"])
-    D = "size" if not symm else "size"   # inside the symmetric body `size` has been rebound to size - 1
-    inv = [("C:partial-list", "nout == pos(_it1) and forall(lambda i: implies(0 <= i and i < nout, out[i] == F(i, size)))")]
-    ypost = [("S:documented-closed-form", "result == F(k, size)")]
+    D = "size" if not symm else "(size - 1)"   # in a clause `size` is the argument; the symmetric body rebinds the name to size - 1
+    inv = [("C:partial-list", "nout == pos(_it1) and forall(lambda i: implies(0 <= i and i < nout, out[i] == F(i, %s)))" % D)]
+    ypost = [("S:documented-closed-form", "result == F(k, %s)" % D)]
     rng = RANGE_OK[name]
     theorems = []
     trig = {"hann": ["|cos|<=1"], "hamming": ["|cos|<=1"], "blackman": ["|cos|<=1", "double-angle"], "cos": ["pi", "sin-on-[0,pi]"]}.get(name, [])
